@@ -17,7 +17,9 @@ va_list VERIF_VA_CUR;
 /* The text is assembled in a small local array (cheap for the solver even at symbolic positions) and handed to the caller's buffer by
  * one memcpy: the destination may be a large array (String::_op_vformat formats into char[1024] when the string is nearly full) at a
  * symbolic offset, where every single character write would be a separate array update. Longer outputs than VP_MAX are reported. */
-#define VP_MAX 96
+#ifndef VP_MAX
+#define VP_MAX 96   /* Unit(c_defines=['VP_MAX=<n>']) for harnesses that format longer texts */
+#endif
 #define VP_PUT(ch) do { if (pos < VP_MAX) out[pos] = (char)(ch); pos++; } while (0)
 
 /* Decimal digits by repeated subtraction of powers of ten: no division (a /10 digit loop is the slow kernel for a SAT back end).
